@@ -333,6 +333,61 @@ pub fn k_body(SQ: usize, KIND: u8, WHITE: bool, G: u8) {
     std::mem::forget(sym);
 }
 
+/// C15: positions the FEN reader accepts may hold pawns on their LAST rank (nothing in the
+/// reader forbids it).  The generator must stay in range for them too: a pawn of the side to
+/// move on its last rank, everything else symbolic (one king each, rights and e.p. file
+/// consistent; pawns anywhere).  Only Kani's own checks (unsafe preconditions, debug
+/// assertions, bounds) are looked at -- the rules say nothing about such positions.
+#[allow(non_snake_case)]
+pub fn k_lastrank_body(SQ: usize, WHITE: bool) {
+    let mut board = [spec::EMPTY; 64];
+    let mut r = 0;
+    while r < 8 {
+        let mut c = 0;
+        while c < 8 {
+            let x: u8 = kani::any();
+            kani::assume(x <= 12);
+            board[r * 8 + c] = x;
+            c += 1;
+        }
+        r += 1;
+    }
+    board[SQ] = spec::code(spec::PAWN, !WHITE);
+    let p = Pos { board, white_to_move: WHITE, castle: [kani::any(), kani::any(), kani::any(), kani::any()], ep: kani::any() };
+    kani::assume(spec::count(&p.board, spec::code(spec::KING, false)) == 1 && spec::count(&p.board, spec::code(spec::KING, true)) == 1);
+    kani::assume(spec::rights_consistent(&p) && spec::ep_consistent(&p));
+    let game = build_game(&p, 0, 0, false, 2, 0);
+    let mut n = 0u32;
+    code_piece(p.board[SQ]).unwrap().get_moves(
+        |m: Move| {
+            let (from, _to, _mk) = spec_move(&m);
+            assert!(from == SQ, "[C15] a move emitted for a pawn on its last rank does not start on its square");
+            n += 1;
+        },
+        &game,
+        position(SQ),
+    );
+    assert!(n <= 12, "[C15] implausibly many moves for one pawn");
+    std::mem::forget(game);
+}
+
+macro_rules! kl_instance {
+    ($name:ident, $sq:expr, $white:expr) => {
+        #[cfg_attr(kani, kani::proof)]
+        #[cfg_attr(kani, kani::unwind(9))]
+        pub fn $name() {
+            k_lastrank_body($sq, $white)
+        }
+    };
+}
+
+kl_instance!(k_lastrank_a8_w, 56, true);
+kl_instance!(k_lastrank_e8_w, 60, true);
+kl_instance!(k_lastrank_h8_w, 63, true);
+kl_instance!(k_lastrank_a1_b, 0, false);
+kl_instance!(k_lastrank_d1_b, 3, false);
+kl_instance!(k_lastrank_h1_b, 7, false);
+
 macro_rules! k_instance {
     ($name:ident, $sq:expr, $kind:expr, $white:expr, $g:expr) => {
         #[cfg_attr(kani, kani::proof)]
